@@ -1,5 +1,6 @@
 //! package `layout` (see CONVENTIONS.md): register components here.
 //! C32 desc, C30 csm, C29 map32, C31 sft
+pub mod csm;
 pub mod desc;
 
 use mmtk::util::heap::vm_layout::VMLayout;
@@ -58,6 +59,7 @@ pub fn dispatch(tokens: &[&str]) -> Option<String> {
     let (c, args) = tokens.split_first()?;
     Some(match *c {
         "desc" => desc::run(args),
+        "csm" => csm::run(args),
         _ => return None,
     })
 }
